@@ -74,3 +74,10 @@ check("C14",
   "center: sum of outputs == 0; scale/standardize: sum == 0 and sum of squares == n under std != 0; both the same affine map (training mean/std) on fresh symbolic later data; poly(raw): exactly the powers x^1..x^d (d <= 6), at training and prediction; poly orthonormal: columns orthogonal to the constant, unit norm and satisfying the three-term recurrence with the fitted parameters (hence same span as the raw powers) for degree 1 (n <= 10) and degree 2 (n = 3); bs: every df/degree/intercept/knots combination in the bound is either refused (invalid) or yields the documented number of columns, invalid bounds/knots refused.",
   "Trusted: z3 (nlsat); stubs in evidence; std != 0, x not constant. NOT decided and not claimed: non-negativity / partition of unity of bs values (FITPACK), poly orthonormality for higher degree/n (solver unknown), anything about IEEE rounding (reals, not floats).",
   "DESIGN.md section 4 C14")
+
+check("C03",
+  "QF_LRA decision of full column rank and span equality (quantifier: all coefficient vectors) on exact integer design matrices produced by the real design_matrices; formulas and layouts enumerated",
+  "other",
+  "For every formula of the bound (all 5910 ordered families of <= 3 terms over {f,g,h,x} with/without intercept, plus factor-order, second-numeric, C/T/S and multi-column-atom variants) the real design_matrices builds X on replicated complete-factorial integer data; z3 (QF_LRA) shows that no non-zero coefficient vector annihilates X and that span(X) equals the span of the complete-indicator coding of every term (both inclusions, witnesses re-checked in exact arithmetic). A failure to build the matrix is a violation. Deficiencies are re-tested at a second data point and replayed with exact fraction elimination.",
+  "Only the coefficient vectors are symbolic (this is the weakest fit to the family and is labelled 'other'); formulas/levels/data are enumerated. General position is represented by integer pseudo-random data (full rank at a point implies generic full rank). bs/poly/scale atoms are represented by an integer two-column stand-in.",
+  "DESIGN.md section 4 C03")
